@@ -19,6 +19,7 @@ from .values import (BoundMethod, BreakSig, Builtin, ClassM, ClassV,
                      TupleObj, is_sym, mk, z3bool, z3int, z3str)
 
 REPO = os.environ.get('PYVC_REPO', '/repo')
+RANGE_BOUND = 3
 
 
 class Env(object):
@@ -49,6 +50,7 @@ class Interp(object):
         self.exc = self.lib.exc_classes
         self.call_hooks = []
         self.loading_ctx = None
+        self.range_bound = RANGE_BOUND
 
     # ------------------------------------------------------------------
     # modules
@@ -570,7 +572,20 @@ class Interp(object):
             return iter(list(it.keys()))
         if isinstance(it, RangeV):
             if is_sym(it.start) or is_sym(it.stop):
-                raise OutsideSubset('iteration over symbolic range')
+                # BOUNDED: symbolic ranges are unrolled up to RANGE_BOUND
+                # elements; longer ones end the path and are counted in
+                # stats.bounded_cuts (reported in the evidence, never proof)
+                ctx = self.ctx
+                a, b = z3int(it.start), z3int(it.stop)
+                conds = [b - a <= 0] + [b - a == k for k in
+                                        range(1, self.range_bound + 1)] + \
+                    [b - a > self.range_bound]
+                d = ctx.fork(conds, 'range-len')
+                if d == len(conds) - 1:
+                    ctx.stats.bounded_cuts = getattr(
+                        ctx.stats, 'bounded_cuts', 0) + 1
+                    raise PathEnd()
+                return iter([mk(a + k) for k in range(d)])
             return iter(range(it.start, it.stop))
         if isinstance(it, str):
             return iter(it)
@@ -831,6 +846,8 @@ class Interp(object):
             return True
         if isinstance(v, (GenV, ClassV, FuncV, BoundMethod, Builtin,
                           ModuleV, LibModule, StreamV, IterV, SymDict)):
+            return True
+        if getattr(v, 'always_truthy', False):
             return True
         raise OutsideSubset('truth of %r' % (v,))
 
